@@ -101,8 +101,8 @@ CLAIMED = {
     "C01": dict(
         category="model_checking",
         technique="TLA+ spec GeomDiffuse.tla (region, CDFs, densities, measure, Jacobian identity, quantile) model-checked on a lattice of 120 regions; every thrown trajectory and a Sobol equal-weight quadrature of mcintegral validated by TraceGeomDiffuse.tla against an independent aperture quadrature evaluated by TLC",
-        text="MCGeomDiffuse checks for altitudes 5..36000 km x limb x cone x azimuth range that the four CDFs are 0/1 at the region's ends, the densities are their derivatives, weight x mcnorm x pdf equals integrand x measure density pointwise, and the trigonometric quantile inverts the CDF on the closed interval. RegionGeom.throw(u) is driven with u on faces, corners, denormals and 1-2^-53 of the closed cube and random u; per event TLC checks the four inverse-CDF clauses as backward errors (1e-9), mcnorm against its closed form (1e-11), the Jacobian identity on the reported cosines, the keep rule from explicit vectors. A scrambled-Sobol equal-weight sum of the estimator (2^20 points quick, 2^23 thorough; 6 configurations) is compared by TLC (0.3 %) with a midpoint rule over an independent physical parametrisation (normal-to-line-of-sight angle x cone angle, azimuth integral in closed form).",
-        note="Assumes: events within 1e-9 of the keep boundary are inconclusive; quadrature band 0.3 % (observed agreement <= 0.04 %); small-angle errors below that band are caught by the per-event mcnorm / identity clauses.",
+        text="MCGeomDiffuse checks for altitudes 5..36000 km x limb x cone x azimuth range that the four CDFs are 0/1 at the region's ends, the densities are their derivatives, weight x mcnorm x pdf equals integrand x measure density pointwise, and the trigonometric quantile inverts the CDF on the closed interval. RegionGeom.throw(u) is driven with u on faces, corners, denormals and 1-2^-53 of the closed cube and random u; per event TLC checks the four inverse-CDF clauses as backward errors (1e-9), mcnorm against its closed form (1e-11), the Jacobian identity on the reported cosines, the keep rule from explicit vectors. An equal-weight sum of the estimator over 65536 (quick) / 262144 (thorough) midpoint strata in u4 x scrambled-Sobol points in (u1, u2), for 6 configurations, is compared by TLC (0.4 %) with a midpoint rule over an independent physical parametrisation (normal-to-line-of-sight angle x cone angle, azimuth integral in closed form).",
+        note="Assumes: events within 1e-9 of the keep boundary are inconclusive; quadrature band 0.4 % (observed deviation <= 0.19 %, a known negative bias of midpoint strata at the integrable horizon singularity); small-angle errors below that band are caught by the per-event mcnorm / identity clauses.",
         design="4/C01"),
     "C02": dict(
         category="model_checking",
